@@ -216,7 +216,7 @@ func c01OpRun(c *Case, rng *Rng, cfg c01OpCfg, initial, duringSync [][]c01Ev, af
 		conf += "  queue: " + cfg.queue + "\n"
 	}
 	_ = os.WriteFile(filepath.Join(hooksDir, "config.yaml"), []byte(conf), 0o644)
-	_ = os.WriteFile(filepath.Join(hooksDir, "hook.sh"), []byte(fmt.Sprintf(c01HookScript, logDir)), 0o755)
+	_ = writeScript(filepath.Join(hooksDir, "hook.sh"), []byte(fmt.Sprintf(c01HookScript, logDir)), 0o755)
 	for n := 1; n <= cfg.failSync+1; n++ {
 		_ = os.WriteFile(filepath.Join(logDir, fmt.Sprintf("wait-%d", n)), nil, 0o644)
 	}
